@@ -144,6 +144,15 @@ def run(ctx):
     ctx.not_decided = ['json.dumps/loads round-trip itself (trusted)', 'primitive correctness on values']
     check_generate(ctx)
     check_node_versions(ctx, 'C06.NODEVERSION')
+    # "for every seed ... the master block echoes the mnemonic and passphrase used": the rows are those of the seed of
+    # exactly that (mnemonic, passphrase) pair - the seed/master/constructor obligations of C03 are part of C06 too
+    from . import C03
+    sub = ctx.__class__('C06', ctx.tier, ctx.p, ctx.seed)
+    C03.run(sub)
+    for o in sub.obligations:
+        if o.rule in ('C03.PBKDF2', 'C03.MASTER', 'C03.CTOR'):
+            o.rule = 'C06.SEED(=%s)' % o.rule
+            ctx.obligations.append(o)
     # ---------------------------------------------------------------- siblings
     with ctx.obligation('C06.SIBLING', 'PaperWallet.bip44/bip49/bip84', None, p.get_function('paper_wallet.PaperWallet.bip44').where) as ob:
         dumps = {}
